@@ -31,7 +31,7 @@ func runC15(c *core.Ctx) {
 	c.Rule("R5", "own owner id only", 2)
 	c.Rule("R7", "the owner count guarding deletion counts every owner of the partition (no clock, no other field)", 1)
 	c.Rule("R8", "partition state and state-change lock merge as separate last-writer-wins registers (shared with C03.R1)", 2)
-	c.Rule("R6", "active-partition lookup uses the active flag of the same token index", 2)
+	c.Rule("R6", "active-partition lookup uses the active flag of the same token index; the batch lookup keeps key indexes", 3)
 	pkg := c.Prog.Pkg("ring")
 	if pkg == nil {
 		c.Miss("R1", "pkg=ring", "not loaded")
@@ -525,6 +525,7 @@ func c15Lookup(c *core.Ctx, pkg *packages.Package) {
 	if n == 0 {
 		c.Undec("R6", "func=ActivePartitionForKey:return", fn.Pos(), "no successful return found")
 	}
+	c15Batch(c, pkg)
 	// parallel slices filled consistently
 	if b := an.FindFunc(pkg, "buildRingTokenPartitionLookups"); b != nil {
 		c.Analysed(b.String())
@@ -546,4 +547,47 @@ func c15Lookup(c *core.Ctx, pkg *packages.Package) {
 	} else {
 		c.Miss("R6", "func=buildRingTokenPartitionLookups", "not found")
 	}
+}
+
+// c15Batch (R6): the batch lookup records, for key index i, the partition of keys[i] — the index under
+// which a lookup is stored is the index of the key that was looked up, and the index reported for a
+// partition is the index of the entry that names it.
+func c15Batch(c *core.Ctx, pkg *packages.Package) {
+	fn := an.FindFunc(pkg, "ActivePartitionBatchRing.GetKeysByPartition")
+	if fn == nil {
+		c.Miss("R6", "func=GetKeysByPartition", "not found")
+		return
+	}
+	c.Analysed(fn.String())
+	var stores, appends []string
+	okStore, okAppend := 0, 0
+	fn.InspectShallow(func(nd ast.Node) bool {
+		as, ok := nd.(*ast.AssignStmt)
+		if !ok || len(as.Lhs) != 1 || len(as.Rhs) != 1 {
+			return true
+		}
+		ix, ok := as.Lhs[0].(*ast.IndexExpr)
+		if !ok {
+			return true
+		}
+		idx, rhs := fn.Canon(ix.Index), fn.Canon(as.Rhs[0])
+		if strings.Contains(rhs, "ActivePartitionForKey(") {
+			stores = append(stores, fmt.Sprintf("[%s] = %s", idx, rhs))
+			if (idx == "keyof(p1)" && strings.HasSuffix(rhs, ".ActivePartitionForKey(each(p1))#0")) || strings.HasSuffix(rhs, ".ActivePartitionForKey(p1["+idx+"])#0") {
+				okStore++
+			}
+		}
+		if call, ok := an.Unparen(as.Rhs[0]).(*ast.CallExpr); ok && len(call.Args) == 2 {
+			if id, ok := call.Fun.(*ast.Ident); ok && id.Name == "append" && fn.Canon(call.Args[0]) == fn.Canon(as.Lhs[0]) {
+				v := fn.Canon(call.Args[1])
+				appends = append(appends, fmt.Sprintf("[%s] ← %s", idx, v))
+				if strings.HasPrefix(idx, "each(") && v == "keyof("+strings.TrimPrefix(idx, "each(") {
+					okAppend++
+				}
+			}
+		}
+		return true
+	})
+	c.Check(len(stores) == 1 && okStore == 1 && len(appends) == 1 && okAppend == 1, "R6", "func=GetKeysByPartition:index", fn.Pos(),
+		fmt.Sprintf("the lookup of keys[i] is stored under i, and entry i is reported under the partition it names (stores: %v; reported: %v)", stores, appends), 2)
 }
